@@ -219,8 +219,14 @@ class Stats:
         self.known_seen = {}
 
     def record(self, case, info):
-        self.evaluations += 1
+        self.evaluations += (info or {}).get("n", 1)      # a check may explore a whole sub-tree of cases
         if info:
+            for key in info.get("nt_keys", ()):            # ... and report its own distinct non-trivial cases
+                h = case_hash(key)
+                if h not in self.nt:
+                    self.nt.add(h)
+                    if len(self.samples) < 3:
+                        self.samples.append(key)
             for c in info.get("classes", ()):
                 self.classes[c] = self.classes.get(c, 0) + 1
             if info.get("nt"):
